@@ -113,6 +113,24 @@ class Extractor:
         fr.note('V-BLOCK', 1, 'compound statement extracted from the function body (byte for byte) and wrapped in a function whose parameters are its free variables')
         return fr
 
+    def stmts(self, rel, ty, name, start_regex, end_regex, trait=None):
+        """V-BLOCK: a run of consecutive statements of `fn name`, from the line matching start_regex up to (not including)
+        the line matching end_regex, byte for byte.  The caller wraps it in a function whose parameters are the free
+        variables of the run and whose result are the variables it defines that are used afterwards."""
+        src = self.src(rel)
+        (s, _, e), blk = src.method(ty, name, trait)
+        m1 = next(src.find_code(start_regex, s, e), None) or next(re.compile(start_regex, re.M).finditer(src.text, s, e), None)
+        if m1 is None:
+            raise ScanError(f"{rel}: statement run start `{start_regex}` not found in {ty}::{name}")
+        m2 = next(re.compile(end_regex, re.M).finditer(src.text, m1.end(), e), None)
+        if m2 is None:
+            raise ScanError(f"{rel}: statement run end `{end_regex}` not found in {ty}::{name}")
+        a = src.text.rfind('\n', 0, m1.start()) + 1
+        b = src.text.rfind('\n', 0, m2.start()) + 1
+        fr = self._frag(rel, a, b, f"{rel}:{ty}::{name}/statements `{start_regex}` .. `{end_regex}`")
+        fr.note('V-BLOCK', 1, 'run of consecutive statements extracted from the function body (byte for byte) and wrapped in a function of its free variables')
+        return fr
+
     def impl_block(self, rel, ty, trait=None, nth=0):
         """whole `impl [trait for] ty { .. }` block (ty may be '=Exact<Type>' to match the full self type)."""
         blocks = self.src(rel).impl_blocks(ty, trait)
@@ -180,6 +198,7 @@ def assemble(pieces):
     for p in pieces:
         if isinstance(p, Fragment):
             p.text = p.fmt(p.text)
+            p.auto_annotate_pure_predicates()
             txt = p.text if p.text.endswith('\n') else p.text + '\n'
             n = txt.count('\n')
             lines_map.append((cur, cur + n - 1, p))
@@ -389,6 +408,18 @@ def _run_unit(unit_dir, repo, workdir, rlimit=None, extra_args=None, timeout=900
     # untagged loop invariants) mean the proof could not be replayed -> undecided
     lost = [h for fr in x.fragments for h in getattr(fr, 'lost_hints', [])]
     res['lost_hint_anchors'] = lost
+    # a closure of the real code that no rewrite gave a contract is an arbitrary function for the verifier: failures in
+    # the function that contains it may be artefacts of that -> undecided
+    if viol:
+        keep = []
+        for v in viol:
+            fr = v.get('_frag')
+            uc = fr.unannotated_closures() if fr is not None else []
+            if uc:
+                undec.append(dict(v, message='the function contains a closure without contract (`' + uc[0][:60] + '`), its result is arbitrary for the verifier: ' + v['message']))
+            else:
+                keep.append(v)
+        viol = keep
     if lost and viol:
         # a function whose proof script lost an anchor is not decided by its failures (tagged or not): the proof may
         # simply be incomplete for the changed code.  Failures in functions whose script is intact still count.
